@@ -50,13 +50,29 @@ def build_space(cfg, history, truncate, bd):
     hs = hierarchical.HSpace(kvs, truncate=truncate, disparity=c04._disp(cfg["disparity"]),
                              bdspecs=bdspecs_of(bd, len(kvs)))
     refined = []
-    for ev in history:
+
+    def call(ev):
         marks, ct = c04.marks_of(ev)
         ret = hs.refine(marks, truncate=True) if cfg.get("mark_truncate") else hs.refine(marks)
         for lv, cs in (ret or {}).items():
             while len(refined) <= lv:
                 refined.append(set())
             refined[lv] |= {tuple(int(x) for x in c) for c in cs}
+
+    for ev in history:
+        # adaptive-loop usage: the cells of one recorded call are refined one call at a time (coarsest first) and the
+        # index structures are queried between any two calls, as a solve-estimate-mark-refine loop does; a refinement
+        # call that does not add a level must leave the lazily cached index structures valid.  The state reached is a
+        # legitimate reachable state in any case; the oracles below are computed from the cells actually refined.
+        for lv, c in sorted(ev):
+            if lv < hs.numlevels and tuple(c) in {tuple(int(x) for x in cc) for cc in hs.active_cells(lv)}:
+                call(((lv, tuple(c)),))
+                try:
+                    hs.dirichlet_dofs()
+                    hs.non_dirichlet_dofs()
+                    hs.indices_to_smooth("func_supp")
+                except Exception:
+                    pass
     return hs, refined
 
 
